@@ -165,7 +165,17 @@ func main() {
 	var retry []*FuncResult
 	retryIdx := map[*Obl]int{}
 	for i, v := range verdicts {
-		if cls := lockClass(lockSet, lockFam, *tags, v.Obl.Name); v.Status == "undecided" && (cls == "q" || cls == "c" || (cls == "" && !*updateLock && *fnre == "" && lockHasFunc(lockSet, *tags, v.Func) && !v.Obl.Cover)) && tmo < 60000 {
+		cls := lockClass(lockSet, lockFam, *tags, v.Obl.Name)
+		// quick tier: everything claimed (and new obligations of known functions) gets a second
+		// attempt; thorough tier: claimed obligations get one with 2.5x the limit they were
+		// discharged under at the lock refresh, so that a loaded machine is not an alarm
+		again := false
+		if tmo < 60000 {
+			again = cls == "q" || cls == "c" || (cls == "" && !*updateLock && *fnre == "" && lockHasFunc(lockSet, *tags, v.Func) && !v.Obl.Cover)
+		} else if !*updateLock {
+			again = cls == "q" || cls == "c" || cls == "t"
+		}
+		if v.Status == "undecided" && again {
 			for _, fr := range results {
 				if fr.Name == v.Func {
 					retry = append(retry, &FuncResult{Name: fr.Name, Spec: fr.Spec, VC: fr.VC, Obls: []*Obl{v.Obl}})
@@ -175,7 +185,7 @@ func main() {
 		}
 	}
 	if len(retry) > 0 {
-		for _, v := range discharge(retry, *workers, 60000, seed+1, *keep) {
+		for _, v := range discharge(retry, *workers, 150000, seed+1, *keep) {
 			v.TimeS += verdicts[retryIdx[v.Obl]].TimeS
 			verdicts[retryIdx[v.Obl]] = v
 		}
